@@ -944,8 +944,9 @@ PPL::Grid::constrains(const Variable var) const {
       if (sgn(g_i.coefficient(var)) != 0) {
         if (g_i.expression().all_zeroes(1, var.space_dimension())
             && g_i.expression().all_zeroes(var.space_dimension() + 1, space_dim + 1)) {
-          // The only nonzero coefficient in g_i is the one of var.
-          return true;
+          // The only nonzero coefficient in g_i is the one of var:
+          // the grid contains the line of direction var.
+          return false;
         }
       }
     }
